@@ -223,7 +223,10 @@ def run_hypothesis_shard(mod, tier, seed, shard, nshards, state, sub=None):
         h = spec_hash(spec)
         if state.fail is not None:
             state.post_fail_evals += 1
-            if state.post_fail_evals > shrink_budget:
+            no_shrink = getattr(mod, "NO_SHRINK", None)
+            if (state.post_fail_evals > shrink_budget) or (
+                no_shrink and any(no_shrink in v for v in state.fail[1])
+            ):
                 # shrink budget exhausted: replay known failures, pass the rest
                 if h in state.failing_hashes:
                     _raise_fail()
